@@ -196,9 +196,10 @@ template <class T, class Get, size_t... d, bool MASK_OK, int SEL> struct Reg<T, 
         C20_REG(O_TSET, true); C20_REG(O_TADD, true); C20_REG(O_TSUB, SEL == 0); C20_REG(O_TMUL, true); C20_REG(O_TDIV, std::is_integral<T>::value);
         C20_REG(O_ESET, true); C20_REG(O_EADD, true); C20_REG(O_ESELF, true); C20_REG(O_EMUL, SEL == 0);
         C20_REG(O_EL0, SEL == 0); C20_REG(O_EL1, true); C20_REG(O_EL2, SEL == 0);
-        // a tensor assigned (or compound-assigned) to a dynamic view of a 1-D/2-D TensorMap does not compile (the generic n-D view builds the 1-D/2-D
-        // Tensor view specialisations from an array of seq): recorded by reject_view_tensor, kept out of the alphabet of those maps
-        C20_REG(O_VSET, true); C20_REG(O_VADD, SEL == 0 && (MASK_OK || sizeof...(d) >= 3)); C20_REG(O_VTENS, SEL == 0 && (MASK_OK || sizeof...(d) >= 3));
+        // a tensor assigned (or compound-assigned) to a dynamic view of a 2-D TensorMap does not compile (the generic n-D view builds the 2-D Tensor
+        // view specialisation from an array of seq; the 1-D case was repaired in /repo cbcda0a): recorded by reject_view_tensor, kept out of the
+        // alphabet of rank-2 maps
+        C20_REG(O_VSET, true); C20_REG(O_VADD, SEL == 0 && (MASK_OK || sizeof...(d) != 2)); C20_REG(O_VTENS, SEL == 0 && (MASK_OK || sizeof...(d) != 2));
         C20_REG(O_FSET, true); C20_REG(O_FSUB, SEL == 0); C20_REG(O_FMUL, SEL == 0);
         C20_REG(O_MSET, MASK_OK);
         C20_REG(O_FILL, true); C20_REG(O_IOTA, true); C20_REG(O_ZEROS, true); C20_REG(O_ONES, SEL == 0);
